@@ -519,3 +519,11 @@ def hunt2_rules(chk, repo):
     else:
         chk.violation("C05.once.nobody", asserts[0], K.short(asserts[0]), "if coding is ContentCoding.identity or self._body is None: return",
                       "web.Response() has body None by default; with enable_compression() (a compress-everything middleware) the assertion fails inside finish_response(), outside the clauses that turn handler errors into a 500: start() logs `Unhandled exception` and force-closes - the client gets ServerDisconnectedError instead of the 201/204")
+    # ---- C05.decline.connect: a CONNECT that is not answered 2xx does not leave the parser in tunnel mode -------------------------------------
+    fr_ = repo.func(PROTO, f"{RH}.finish_response")
+    fcs_ = [c for c in prog.calls_in(fr_.node) if norm.raw(c.func) == "resp.force_close" and any("METH_CONNECT" in l.text or "'CONNECT'" in l.text for cl_ in PC.pc(c, raw=True) for l in cl_)]
+    if fcs_:
+        chk.ok("C05.decline.connect", fcs_[0], "finish_response(): a CONNECT request answered with a non-2xx status closes the connection (the parser switched to tunnel mode on reading the head)")
+    else:
+        chk.violation("C05.decline.connect", fr_, "request.method == hdrs.METH_CONNECT", "resp.force_close() when the status is not 2xx",
+                      "the request parser enters tunnel mode as soon as it has read a CONNECT head, but only a 2xx answer switches to a tunnel (RFC 9110 9.3.6): after `404` with keep-alive every further request on the connection is swallowed as tunnel data and never answered - the client hangs until the lingering / keep-alive timeout")
